@@ -120,14 +120,16 @@ class Ctx:
         return self.program.func(rel, qualname)
 
 
-def norm_locals(node: Any, scope) -> str:
+def norm_locals(node: Any, scope, cfg=None) -> str:
     """Normalised text of an AST node with the local variable names of *scope*
     (and of its nested functions) replaced by `_`: keys built from it survive
-    renaming of locals."""
+    renaming of locals.  With a *cfg* the locals / parameters of the helpers inlined into it count as well."""
     import copy
     if not isinstance(node, ast.AST):
         return norm(node)
     names = set(getattr(scope, 'locals', ()))
+    if cfg is not None:
+        names |= {n.meta['name'] for n in cfg.nodes if n.kind == 'store_name'}
     for ch in getattr(scope, 'children', []):
         names |= set(getattr(ch, 'locals', ()))
     names -= {'self', 'cls'}
